@@ -90,8 +90,10 @@ def _record(item):
     _fine["hard"] = 4 * limit + 64
     _fine["on"] = True
     try:
+        # backstop over ALL back-edges: per round at most one pass over the groups plus, per group, one pass
+        # over the knees selected so far (groups + selected <= n)
         outcome, v, counts = monitor.call(zmethod.knees, (P.copy(), dx, dy, dz), kw,
-                                          budget=400 * limit + 20000, wall=30)
+                                          budget=limit * (n * n // 4 + 2 * n + 16) + 20000, wall=60)
     finally:
         _fine["on"] = False
     steps = _fine["count"]
@@ -347,7 +349,7 @@ def run(ctx):
         "steps = back-edges to the header of the first loop of zmethod.getPoints (the main `while True`), counted with "
         "a second sys.monitoring tool; limit = ceil((3 - z_min)/dz) + n + 2 + %d with z_min from "
         "uts.zscore.zscore_array(x, uts.gradient.csd(x, y)) (trusted dependency)" % SLACK,
-        "a call whose main loop exceeds 4*limit+64 iterations (or 400*limit+20000 back-edges overall, or 30 s) is "
+        "a call whose main loop exceeds 4*limit+64 iterations (or limit*(n^2/4+2n+16)+20000 back-edges overall, or 60 s) is "
         "aborted and recorded with outcome budget/watchdog -> clause terminates",
         "MC_ZMethod: gaps range over 1..min(GapMax,w) (a gap > w decides every comparison like a gap = w); the "
         "visiting order of groups whose ZLevel ties is arbitrary (superset of the code's order by exact z)",
